@@ -500,6 +500,10 @@ def junit_report_case(lab, mon, rng):
     import tempfile
     from behave.reporter.junit import JUnitReporter
     gen = {"p_nonpass": 0.5, "max_features": 1, "max_steps": 3, "p_stepless": 0.0, "outcomes": ["fail", "error"], "p_outline": 0.2}
+    if rng.random() < 0.5:
+        # (a Background whose steps fail as well: the scenario that fails THERE has its output in its test case like any other)
+        gen.update({"p_background": 0.95, "p_rule_background": 0.8, "p_nonpass": 0.9})
+        mon.seen("junit_failing_step_place", "possibly_in_a_background")
     case = RB.gen_case(rng, gen=gen, p_stop=0.0, p_dry=0.0, p_noskipped=0.0, tags=False)
     outdir = tempfile.mkdtemp(prefix="bvm-c18-junit-")
     produced = {}
